@@ -18,14 +18,20 @@ Act(ev) ==
     [] ev.op = "confirm_removed"   -> ConfirmOnRemoved(ev.p)
     [] ev.op = "truncate"          -> Truncate(ev.t)
 
+(* C06: a ledger reopened on the image after any prefix of the operation's storage writes answers either like the
+   ledger before the operation (projected over the blocks known then) or like the ledger after it: every ledger
+   operation is atomic with respect to crashes *)
+CutsOK(ev) == ~("cuts" \in DOMAIN ev) \/ \A i \in DOMAIN ev.cuts : ev.cuts[i].pre = Obs \/ ev.cuts[i].post = Obs'
+BadCut(ev) == LET i == CHOOSE i \in DOMAIN ev.cuts : ~(ev.cuts[i].pre = Obs \/ ev.cuts[i].post = Obs') IN ev.cuts[i].post
 TStep ==
   /\ l <= Len(Trace) /\ div = NoDiv
   /\ LET ev == Trace[l] IN
      /\ Act(ev)
      /\ div' = IF ev.op = "reset" THEN NoDiv
                ELSE LET r == hist'[Len(hist')].res IN
-                    IF r = ev.res /\ Obs' = ev.obs THEN NoDiv
-                    ELSE [at |-> l, tr |-> ev.tr, op |-> ev.op, expres |-> r, actres |-> ev.res, exp |-> Obs', act |-> ev.obs]
+                    IF r = ev.res /\ Obs' = ev.obs /\ CutsOK(ev) THEN NoDiv
+                    ELSE [at |-> l, tr |-> ev.tr, op |-> ev.op, expres |-> r, actres |-> ev.res, exp |-> Obs',
+                          act |-> IF r = ev.res /\ Obs' = ev.obs THEN BadCut(ev) ELSE ev.obs]
   /\ l' = l + 1
 TSpec == TInit /\ [][TStep]_tvars
 
